@@ -196,11 +196,118 @@ def check_C18(tier, t0):
     return core.finish("C18", tier, engine, agg, info, t0, extra, assumptions, rule)
 
 
+# ---------------------------------------------------------------------------------------------
+# C19
+# ---------------------------------------------------------------------------------------------
+
+
+def _c19_batch(tier, seed, n, bud):
+    from . import engine_state as es
+
+    agg, info = core.run_batch(es.make_engine, {"seed": seed}, n, 40 if tier == "quick" else 400, bud)
+    engine = es.make_engine(seed)
+    agg.add(-1, engine.import_run())  # import-time effects on process-global state
+    rep = core.report("C19", engine, agg, shrink_budget=40.0, max_shrunk=5)
+    if engine.room is not None:
+        engine.room.close()
+    return agg, info, rep
+
+
+def check_C19(tier, t0):
+    import pickle
+    import subprocess
+
+    seed = core.verif_seed()
+    n = scale(3000 if tier == "quick" else 30000)  # per hash seed
+    bud = budget(200 if tier == "quick" else 2400)
+    partial = os.environ.get("CVSSSIM_C19_PARTIAL")
+    if partial:
+        # child mode: one hash seed (the one this interpreter was started with)
+        agg, info, rep = _c19_batch(tier, seed, n, bud)
+        for v in agg.violations.values():
+            v["trace"] = None
+        with open(partial, "wb") as f:
+            pickle.dump((agg, info, rep), f)
+        return 0
+    if tier == "quick":
+        hashseeds = [0, 1]
+    else:
+        from .rng import Rng
+
+        r = Rng(seed).fork("hashseeds")
+        hashseeds = [0, 1, 2, 3, 4242, 4294967295, r.below(1 << 32), r.below(1 << 32)]
+    per_seed_budget = bud / len(hashseeds)
+    total, info, reports = None, None, []
+    per_seed = {}
+    for hs in hashseeds:
+        if hs == 0:
+            os.environ["VERIF_BUDGET_S"] = str(per_seed_budget)
+            agg, inf, rep = _c19_batch(tier, seed, n, per_seed_budget)
+        else:
+            path = os.path.join(core.tmp_dir(), "c19-hs%d.pickle" % hs)
+            env = dict(os.environ)
+            env.pop("CVSSSIM_CHILD", None)
+            env.update({"VERIF_KEEP_HASHSEED": "1", "PYTHONHASHSEED": str(hs), "CVSSSIM_C19_PARTIAL": path,
+                        "VERIF_BUDGET_S": str(per_seed_budget)})
+            p = subprocess.run([os.path.join(core.VERIF, "check"), "C19", "--tier", tier], env=env,
+                               stdout=subprocess.PIPE, stderr=subprocess.STDOUT, timeout=per_seed_budget * 3 + 600)
+            if p.returncode != 0 or not os.path.exists(path):
+                raise core.HarnessError("C19 batch under PYTHONHASHSEED=%d failed (exit %d): %s" %
+                                        (hs, p.returncode, p.stdout.decode("utf-8", "replace")[-1500:]))
+            with open(path, "rb") as f:
+                agg, inf, rep = pickle.load(f)
+        per_seed[str(hs)] = {"runs": agg.evaluations, "violation_signatures": len(agg.violations)}
+        reports.append(rep)
+        if total is None:
+            total, info = agg, inf
+        else:
+            total.merge(agg)
+            info["budget_cutoff"] = info.get("budget_cutoff") or inf.get("budget_cutoff")
+    from . import engine_state as es
+
+    engine = es.make_engine(seed)
+    c = total.counters
+    extra = {
+        "hash_seeds": per_seed,
+        "faults_fired": dict((k, v) for k, v in c.items() if k.startswith("fault.")),
+        "probes": dict((k, v) for k, v in c.items() if k.startswith("probe.")),
+        "context_switches": c.get("context_switches", 0),
+        "distinct_interleavings": {"measure": "distinct digests of the sequence of (step, from-thread, to-thread, function, line/offset) at which a switch actually happened",
+                                   "count": len(total.extra_sets["interleavings"])},
+        "distinct_states": {"measure": "distinct tuples (function each thread is in) observed at switch points",
+                            "count": len(total.extra_sets["states"])},
+        "runs_by_threads": dict((k, v) for k, v in c.items() if k.startswith("runs.threads_")),
+        "runs_by_granularity": dict((k, v) for k, v in c.items() if k.startswith("runs.granularity_")),
+        "cleanroom_reference_evaluations": c.get("cleanroom_refs", 0),
+        "components": {"real": ["cvss.CVSS2/CVSS3/CVSS4 constructors and accessors", "from_rh_vector", "cvss.parser.parse_cvss_from_text",
+                                "decimal arithmetic under the ambient context", "real threading.Thread objects (one runnable at a time)"],
+                       "stub": ["thread scheduling (seeded baton-passing scheduler; pre-emption at line / instruction events of cvss frames)",
+                                "ambient decimal context (installed per simulated caller thread)", "PYTHONHASHSEED (set per batch interpreter)",
+                                "stdout/stderr (recording streams)"]},
+    }
+    rule = ("seeded runs of 1-4 caller threads (single-thread runs are the history dimension), each with its own ambient "
+            "decimal context (8 rounding modes x prec 28..999, changed between ops), executing self-contained ops over "
+            "collision families (same body under 3.0/3.1, permuted, explicit X/ND, one metric changed, case/blank twins, "
+            "other class, RH right/wrong score, texts embedding them), rejected calls placed between probes; scheduler "
+            "modes prob/biased/PCT at line or instruction granularity; the same run indices under every listed "
+            "PYTHONHASHSEED. Non-trivial = distinct run digest with >=2 threads and >=1 switch inside a cvss frame, or a "
+            "non-default ambient context, or >=1 rejected op before a probe.")
+    assumptions = [
+        "the clean-room result (pristine process, one thread, default context, PYTHONHASHSEED=0) of the same tree is the reference: values, exception class and message, list order",
+        "hash() values are never compared across processes; decimal status flags are not part of 'the context' (DESIGN 6.2)",
+        "pre-emption inside C code (_decimal, re, dict) is impossible under the GIL and not modelled",
+        "names that are None or an empty container right after import are treated as possible memo caches: a change there is a probe, not a violation",
+        "decimal traps / Emin / Emax are never varied (outside the statement)",
+    ]
+    return core.finish("C19", tier, engine, total, info, t0, extra, assumptions, rule, reports=reports)
+
+
 CHECKS = {
     "C08": check_C08,
     "C16": check_C16,
     "C17": check_C17,
     "C18": check_C18,
+    "C19": check_C19,
 }
 
 
@@ -219,6 +326,10 @@ def engine_for_trace(prop, trace):
         from . import engine_hist
 
         return engine_hist.make_engine(seed)
+    if name == "state":
+        from . import engine_state
+
+        return engine_state.make_engine(seed)
     if name == "cli":
         from . import engine_cli
 
@@ -241,6 +352,10 @@ def engines_of(prop):
         from . import engine_hist
 
         return [(engine_hist.make_engine, {"seed": seed})]
+    if prop == "C19":
+        from . import engine_state
+
+        return [(engine_state.make_engine, {"seed": seed})]
     if prop == "C17":
         from . import engine_cli
 
@@ -254,5 +369,7 @@ def print_digests(prop, n, first):
         eng = make(**params)
         for i in range(first, first + n):
             out = eng.run_one(i)
-            sys.stdout.write("%s %d %s %s\n" % (prop, i, out["digest"], ",".join(sorted(v["sig"] for v in out["violations"]))))
+            # verdict digest first (results + violations); the full event-log digest last
+            sys.stdout.write("%s %d %s %s %s\n" % (prop, i, out.get("result_digest", out["digest"]),
+                                                  ",".join(sorted(v["sig"] for v in out["violations"])) or "-", out["digest"]))
     return 0
